@@ -103,9 +103,11 @@ def classify(j):
     several = sorted(n for n in got - own if sum(1 for d in min_depths(j["tree"], n) if d) >= 2)
     f["collected_name_defined_under_several_fields"] = bool(several)
     f["wrong_type_for_method"] = any("wrong type for method" in e for e in j.get("build_errors") or [])
+    fields = set(j["tree"].get("fields") or [])
+    f["renders_method_hidden_by_field"] = bool(got & fields)
     f["embedding_height"] = height(j["tree"])
     f["compiled"] = j["compiled"]
-    f["methods_involved"] = sorted(set(dup + lost) | (got - gms) | set(several))
+    f["methods_involved"] = sorted(set(dup + lost) | (got - gms) | set(several) | (got & fields))
     return f
 
 
@@ -239,12 +241,23 @@ def same_name_many_fields(tree):
     return False
 
 
+def field_hides_method(tree):
+    """a single embedded field, and a plain field of the target named like a method below it"""
+    embs = tree.get("emb") or []
+    if len(embs) != 1:
+        return False
+    below = {m["name"] for m in all_methods(embs[0])}
+    own_embedded = {e["self"].get("name") for e in embs}
+    return any(f in below for f in (tree.get("fields") or []) if f not in own_embedded)
+
+
 def shape_coverage(jsons):
     """how many cases contain each regression-prone shape (own methods of the target; the
     constant-length array is only visible in the generator's description)"""
     keys = ["variadic_named_renamed_import", "map_slice_ptr_generic_sibling_args", "dir_differs_from_package",
             "unnamed_context_not_first", "func_param_multiple_results", "array_constant_length",
-            "user_names_equal_generated_everywhere", "same_name_under_three_fields_shallowest_unique"]
+            "user_names_equal_generated_everywhere", "same_name_under_three_fields_shallowest_unique",
+            "single_embed_field_named_like_embedded_method"]
     out = {k: 0 for k in keys}
     for j in jsons:
         found = set()
@@ -254,6 +267,8 @@ def shape_coverage(jsons):
             if st["name"] == j["target"]:
                 for m in st.get("methods") or []:
                     found |= {x for x in method_shapes(m) if x == "array_constant_length"}
+        if j["emb"] and field_hides_method(j["tree"]):
+            found.add("single_embed_field_named_like_embedded_method")
         if j["emb"] and same_name_many_fields(j["tree"]):
             found.add("same_name_under_three_fields_shallowest_unique")
         for k in found:
